@@ -80,6 +80,15 @@ for _s in SUBJECTS:
     SUBJECT_EMIT[_s + "::observable"] = "subject_observable"
 
 
+def api_paths():
+    """Callee paths the rules are written in: never inlined."""
+    return set(ATOMS) | set(SUBJECT_EMIT) | set(ROLE_API)
+
+
+def load_program(facts):
+    return Program(facts, no_inline=api_paths())
+
+
 def atom(call):
     a = ATOMS.get(call.path)
     if a:
@@ -97,7 +106,9 @@ class Effects:
 
     def _index(self):
         P = self.P
-        for b in P.bodies.values():
+        for b in sorted(P.bodies.values(), key=lambda x: x.nid):
+            if b.id in P.absorbed:
+                continue
             for c in b.calls:
                 a = atom(c)
                 if a:
@@ -128,11 +139,16 @@ class Effects:
     def triples(self):
         """[(Call new_observer, {role: Body or None})]"""
         out = []
+        seen = set()
         for c in self.sites["new_observer"]:
             hs = {}
             for i, r in ((1, "N"), (2, "E"), (3, "C")):
                 cl = c.arg_closure(i)
                 hs[r] = self.P.bodies.get(cl) if cl else None
+            key = tuple(h.id if h is not None else None for h in hs.values())
+            if key in seen and all(k is not None for k in key):
+                continue     # the same registration seen again through an inlined copy of its helper
+            seen.add(key)
             out.append((c, hs))
         return out
 
